@@ -42,7 +42,7 @@ type c13StressViol struct {
 }
 
 func TestVerif_C13_stress(t *testing.T) {
-	rec := vh.NewRec("C13", "stress", "uncontrolled goroutines under the race detector: W request loops (dual/dualx/dualalt/v4/v6/badgen/v6x in rotation - four of the seven kinds are refused under some or all sets and must return their error -, fresh secret per request) against one loop of R sequential reloads (3 of 5 valid files with subnets disjoint from all others, 1 unreadable path, 1 invalid file), each reload followed by a probe request; every answer must come from one set that was installed (or being installed) during the request; watchdog on stalls; non-trivial = a request during which a reload started, ran or ended; distinct by (worker, sequence number)")
+	rec := vh.NewRec("C13", "stress", "uncontrolled goroutines under the race detector: W request loops (dual/dualx/dualalt/v4/v6/badgen/v6x in rotation - four of the seven kinds are refused under some or all sets and must return their error -, fresh secret per request) against one loop of R sequential reloads (the first 24 valid ones under a saturating load of 32 request goroutines; then per 7: 4 valid files with subnets disjoint from all others, 1 unreadable path, 1 invalid file, 1 file that parses but defines no usable generation), each reload followed by a probe request; a reload that is still running after 50 000 registrations have been answered since it started (and 10 s) is stopped-load-confirmed and reported as starved; every answer must come from one set that was installed (or being installed) during the request; watchdog on stalls; non-trivial = a request during which a reload started, ran or ended; distinct by (worker, sequence number)")
 	defer rec.Flush()
 	e := c13NewEnv(t)
 	shard, _ := vh.Shard()
@@ -50,7 +50,7 @@ func TestVerif_C13_stress(t *testing.T) {
 	if vh.ReplayFile() != "" {
 		c.Note = "stress runs are not replayable step by step; the scenario is simply run again"
 	} else {
-		rec.Require("overlapped-a-reload", "reload-ok", "reload-failed", "dual", "v4", "v6", "badgen", "v6x", "dualx", "dualalt", "refused", "overlapped-refused", "overlapped-answered-from-new-set", "overlapped-answered-from-old-set")
+		rec.Require("overlapped-a-reload", "reload-ok", "reload-failed", "dual", "v4", "v6", "badgen", "v6x", "dualx", "dualalt", "refused", "overlapped-refused", "overlapped-answered-from-new-set", "overlapped-answered-from-old-set", "reload-empty-family", "reload-under-saturating-load", "refused-by-empty-set")
 	}
 
 	// plan of reloads, fixed in advance: setAfter[i] = set installed after the first i reloads
@@ -58,20 +58,48 @@ func TestVerif_C13_stress(t *testing.T) {
 		kind   string
 		target int
 	}
+	// The first sat reloads (all valid) run against a saturating load of 32 request goroutines: the
+	// registrar is never idle then, so a reload that only completes when no request is in flight
+	// never returns. After that the load drops to the W checked loops and the reloads rotate through
+	// valid / unreadable / invalid / parses-but-defines-nothing (setAfter >= c13EmptyBase: the
+	// unchanged tree installs that empty set and refuses everything until the next good reload;
+	// keeping the old set, good[i], is accepted as well).
+	const sat = 24
 	plan := make([]step, c.Reloads)
 	setAfter := make([]int, c.Reloads+1)
+	good := make([]int, c.Reloads+1)
 	cur := 0
 	for i := range plan {
-		switch i % 5 {
-		case 2:
+		installed := -1
+		switch {
+		case i >= sat && i%7 == 2:
 			plan[i] = step{kind: "missing"}
-		case 4:
+		case i >= sat && i%7 == 4:
 			plan[i] = step{kind: "garbage"}
+		case i >= sat && i%7 == 6:
+			plan[i] = step{kind: c13EmptyKinds[(i/7)%len(c13EmptyKinds)]}
+			installed = c13EmptyBase + cur
 		default:
 			cur = (cur + 1) % c13NSets
 			plan[i] = step{kind: "new", target: cur}
+			installed = cur
 		}
-		setAfter[i+1] = cur
+		if installed < 0 {
+			installed = setAfter[i] // a failing reload changes nothing
+		}
+		setAfter[i+1] = installed
+		good[i+1] = cur
+	}
+	// every set a request may have been served from while reloads f0+1..s1 started and reloads up to f0 had finished
+	windowOf := func(f0, s1 int64) []int {
+		var w []int
+		for j := f0; j <= s1; j++ {
+			w = append(w, setAfter[j])
+			if setAfter[j] >= c13EmptyBase {
+				w = append(w, good[j])
+			}
+		}
+		return w
 	}
 
 	sel0, err := phantoms.SubnetsFromTomlFile(e.files[0])
@@ -87,6 +115,13 @@ func TestVerif_C13_stress(t *testing.T) {
 		finished atomic.Int64 // reloads finished
 		gmu      sync.Mutex
 		gids     = map[int64]string{}
+		reqDone  atomic.Int64 // answered registrations of all request loops
+		satOps   atomic.Int64
+		relRun   atomic.Bool  // a reload is running ...
+		relIdx   atomic.Int64 // ... this one ...
+		relReq   atomic.Int64 // ... reqDone when it started ...
+		relT     atomic.Int64 // ... and the time
+		relGid   atomic.Int64
 		viol     = make(chan c13StressViol, 64)
 		wg       sync.WaitGroup
 		done     = make(chan struct{})
@@ -112,12 +147,21 @@ func TestVerif_C13_stress(t *testing.T) {
 		return
 	}
 
-	for w := 0; w < c.Workers; w++ {
+	nSat := 32 - c.Workers
+	if nSat < 0 {
+		nSat = 0
+	}
+	for w := 0; w < c.Workers+nSat; w++ {
 		wg.Add(1)
 		go func(w int) {
 			defer wg.Done()
+			satur := w >= c.Workers
 			register(fmt.Sprintf("worker%d", w))
 			for seq := 0; !stop.Load(); seq++ {
+				if satur && finished.Load() >= sat {
+					satOps.Add(int64(seq))
+					return
+				}
 				kind := c13AllReqKinds[(w+seq)%len(c13AllReqKinds)]
 				f0 := finished.Load()
 				resp, err, pan := call(c13Secret("stress", w, seq), kind)
@@ -127,14 +171,25 @@ func TestVerif_C13_stress(t *testing.T) {
 					report("request-panic", fmt.Sprintf("worker %d request %d [%s] panicked: %s", w, seq, kind, pan))
 					return
 				}
-				var window []int
-				for j := f0; j <= s1; j++ {
-					window = append(window, setAfter[j])
-				}
+				reqDone.Add(1)
+				window := windowOf(f0, s1)
 				set, refused, k, m := e.c13Judge(kind, resp, err, window)
 				if k != "" {
 					report(k, fmt.Sprintf("worker %d request %d [%s] (reloads finished before it started: %d, started before it ended: %d): %s", w, seq, kind, f0, s1, m))
 					return
+				}
+				if satur {
+					if !refused {
+						okSet := false
+						for _, x := range window {
+							okSet = okSet || x == set
+						}
+						if !okSet {
+							report("stale-set", fmt.Sprintf("worker %d request %d [%s] was answered from set %d, but the sets installed or being installed during the request were %v", w, seq, kind, set, window))
+							return
+						}
+					}
+					continue // the saturating loops are judged but not recorded one by one
 				}
 				if refused {
 					cl := []string{kind, "refused"}
@@ -145,13 +200,11 @@ func TestVerif_C13_stress(t *testing.T) {
 					continue
 				}
 				ok := false
-				for j := f0; j <= s1; j++ {
-					if setAfter[j] == set {
-						ok = true
-					}
+				for _, x := range window {
+					ok = ok || x == set
 				}
 				if !ok {
-					report("stale-set", fmt.Sprintf("worker %d request %d [%s] was answered from set %d, but the sets installed or being installed during the request were %v", w, seq, kind, set, setAfter[f0:s1+1]))
+					report("stale-set", fmt.Sprintf("worker %d request %d [%s] was answered from set %d, but the sets installed or being installed during the request were %v", w, seq, kind, set, window))
 					return
 				}
 				over := s1 > f0
@@ -173,8 +226,16 @@ func TestVerif_C13_stress(t *testing.T) {
 		defer wg.Done()
 		defer close(done)
 		register("reloader")
+		relGid.Store(c13Gid())
+		begin := time.Now()
+		budget := time.Duration(vh.Pick(40, 300)) * time.Second
 		for i, st := range plan {
 			if stop.Load() {
+				return
+			}
+			if i >= sat && time.Since(begin) > budget {
+				// explored less, never a failure
+				rec.Note("wall-clock allowance of %v used up after %d of %d reloads", budget, i, len(plan))
 				return
 			}
 			path := e.missing
@@ -183,8 +244,15 @@ func TestVerif_C13_stress(t *testing.T) {
 				path = e.files[st.target]
 			case "garbage":
 				path = e.garbage
+			case "missing":
+			default:
+				path = e.emptyFiles[st.kind]
 			}
 			os.Setenv("PHANTOM_SUBNET_LOCATION", path)
+			relIdx.Store(int64(i))
+			relReq.Store(reqDone.Load())
+			relT.Store(time.Now().UnixNano())
+			relRun.Store(true)
 			started.Add(1)
 			var rerr error
 			pan := ""
@@ -196,6 +264,7 @@ func TestVerif_C13_stress(t *testing.T) {
 				}()
 				rerr = p.ReloadSubnets()
 			}()
+			relRun.Store(false)
 			finished.Add(1)
 			progress.Add(1)
 			if pan != "" {
@@ -211,6 +280,12 @@ func TestVerif_C13_stress(t *testing.T) {
 			} else {
 				rec.Class("reload-ok")
 			}
+			if setAfter[i+1] >= c13EmptyBase {
+				rec.Class("reload-empty-family")
+			}
+			if i < sat {
+				rec.Class("reload-under-saturating-load")
+			}
 			// probe: the set in effect after the reload returned
 			resp, err, ppan := call(c13Secret("stress-probe", i, 0), "dual")
 			progress.Add(1)
@@ -218,10 +293,20 @@ func TestVerif_C13_stress(t *testing.T) {
 				report("request-panic", fmt.Sprintf("request after reload %d [%s] panicked: %s", i, st.kind, ppan))
 				return
 			}
-			set, _, k, m := e.c13Judge("dual", resp, err, nil)
+			var pw []int
+			if setAfter[i+1] >= c13EmptyBase {
+				pw = []int{setAfter[i+1]}
+			}
+			set, prefused, k, m := e.c13Judge("dual", resp, err, pw)
 			if k != "" {
 				report(k, fmt.Sprintf("request after reload %d [%s]: %s", i, st.kind, m))
 				return
+			}
+			if prefused || (setAfter[i+1] >= c13EmptyBase && set == good[i+1]) {
+				if prefused {
+					rec.Class("refused-by-empty-set")
+				}
+				continue
 			}
 			if set != setAfter[i+1] {
 				report("final-set", fmt.Sprintf("after reload %d [%s, returned %v] the registrar answers from set %d, expected set %d", i, st.kind, rerr, set, setAfter[i+1]))
@@ -274,6 +359,27 @@ loop:
 			break loop
 		case <-tick.C:
 		}
+		if relRun.Load() {
+			idx, since, el := relIdx.Load(), reqDone.Load()-relReq.Load(), time.Duration(time.Now().UnixNano()-relT.Load())
+			if relRun.Load() && relIdx.Load() == idx && ((since >= 50000 && el >= 10*time.Second) || (since >= 1000 && el >= 60*time.Second)) {
+				// One reload has been running while tens of thousands of registrations were answered.
+				// Stop the load and see whether it returns then.
+				stop.Store(true)
+				t0 := time.Now()
+				for finished.Load() <= idx && time.Since(t0) < 60*time.Second {
+					time.Sleep(10 * time.Millisecond)
+				}
+				head := fmt.Sprintf("reload %d [%s] had not returned after %v during which %d registrations were answered (every one of them correctly)", idx, plan[idx].kind, el.Round(time.Millisecond), since)
+				if finished.Load() > idx {
+					v = &c13StressViol{"stall:reload-starved", fmt.Sprintf("%s; it returned %v after the request load was stopped: the reload completes only when the registrar is idle, continuous traffic starves it", head, time.Since(t0).Round(time.Millisecond))}
+				} else if g := c13Dump()[relGid.Load()]; g.blocked() {
+					v = &c13StressViol{"stall", fmt.Sprintf("%s and not within 60 s after the request load was stopped either; it waits in %s", head, g.where())}
+				} else {
+					v = &c13StressViol{"stall:reload-starved", fmt.Sprintf("%s and not within 60 s after the request load was stopped either; its goroutine is in state %q", head, g.state)}
+				}
+				break loop
+			}
+		}
 		if pr := progress.Load(); pr != last {
 			last, lastChange = pr, time.Now()
 			continue
@@ -315,6 +421,7 @@ loop:
 	}
 	rec.Extra("reloads_done", finished.Load())
 	rec.Extra("workers", c.Workers)
+	rec.Extra("requests_of_saturating_loops", satOps.Load())
 	if harness != "" {
 		t.Fatalf("harness problem: %s", harness)
 	}
